@@ -52,7 +52,7 @@ var guardTable = []guardSpec{
 	{"schemes/bgv.NewParameters", []string{"t", "Q()[0]"}, []token.Token{token.GTR}, []string{"C19"}, "plaintext modulus must not exceed the first ciphertext modulus"},
 	{"schemes/bgv.(Evaluator).Rescale", []string{"op0.Level()", "0"}, []token.Token{token.EQL}, []string{"C05"}, "no level left to rescale"},
 	{"schemes/bgv.(Evaluator).Rescale", []string{"opOut.Level()", "op0.Level()"}, []token.Token{token.LSS}, []string{"C05"}, "receiver too small for the result"},
-	{"schemes/ckks.(Evaluator).Rescale", []string{"op0.Level()", "nbRescales"}, []token.Token{token.LEQ, token.LSS}, []string{"C06"}, "not enough levels for one rescaling (one or two primes)"},
+	{"schemes/ckks.(Evaluator).Rescale", []string{"op0.Level()", "LevelsConsumedPerRescaling"}, []token.Token{token.LEQ, token.LSS}, []string{"C06"}, "not enough levels for one rescaling (one or two primes)"},
 	{"circuits/common/polynomial.(Evaluator).Evaluate", []string{"level", "depth"}, []token.Token{token.LSS}, []string{"C13"}, "an input with too few levels is refused"},
 	{"core/rlwe.(Evaluator).CheckAndGetGaloisKey", []string{"EvaluationKeySet", "nil"}, []token.Token{token.NEQ, token.EQL}, []string{"C11", "C04"}, "nil key set is an error, not a dereference"},
 	{"core/rlwe.(Evaluator).CheckAndGetRelinearizationKey", []string{"EvaluationKeySet", "nil"}, []token.Token{token.NEQ, token.EQL}, []string{"C05", "C06", "C04"}, "nil key set is an error, not a dereference"},
@@ -485,9 +485,24 @@ func guardThroughFunctionValue(info *types.Info, fd *ast.FuncDecl, tokens []stri
 					return true
 				}
 				if calleeFunc(info, call) != nil {
-					return true
-				}
-				if _, isSig := info.TypeOf(call.Fun).Underlying().(*types.Signature); !isSig {
+					// a predicate of the module that receives a function value together with the operands
+					// (`!sharesAgree(field.get, share1, share2, share3)`): what it compares is the function value's business
+					hasFn := false
+					for _, arg := range call.Args {
+						if t := info.TypeOf(arg); t != nil {
+							if _, isSig := t.Underlying().(*types.Signature); isSig {
+								if id := rootIdent(arg); id != nil {
+									if _, isVar := info.Uses[id].(*types.Var); isVar {
+										hasFn = true
+									}
+								}
+							}
+						}
+					}
+					if !hasFn {
+						return true
+					}
+				} else if _, isSig := info.TypeOf(call.Fun).Underlying().(*types.Signature); !isSig {
 					return true
 				}
 				key := exprString(call.Fun)
